@@ -44,6 +44,11 @@ GEN = "sys[*]"
 #   (via: tf | to_tf;  ss | to_ss | tf2ss;  tfdata = tf(*tfdata(x), x.dt) | ss2tf4 = ss2tf(A, B, C, D, dt);
 #    ssdata = ss(*ssdata(x), x.dt) | tf2ss3 = tf2ss(num, den, dt))
 #   ["op", name]     ["frd", ws, kw]
+#   option remove_useless_states (statesp.py:239-279, 350-377):
+#   ["SS", ..., D, rus]          11th element: keyword on ss(A, B, C, D, dt, ...)   (True | False; absent/None = not given)
+#   ["ss", kw, via, rus]         4th element: keyword on ss(sys) / sys.to_ss() / tf2ss(sys)
+#   ["cfg", "on" | "off" | "legacy" | "reset"]    set_defaults('statesp', remove_useless_states=True|False) /
+#                                use_legacy_defaults('0.8.4') / reset_defaults() at this point of the session
 # ----------------------------------------------------------------------------
 
 def canon_key(case):
@@ -68,11 +73,17 @@ def kw_tok(kw):
     return s
 
 
+def flag_tok(v):
+    return "-" if v is None else ("1" if v else "0")
+
+
 def item_tok(it):
     k = it[0]
     if k == "SS":
-        _, mt, n, p, m, dt, A, B, C, D = it
-        return "SS %s %d %d %d %s %s" % (names_tok(mt), n, p, m, dt, " ".join(A + B + C + D))
+        _, mt, n, p, m, dt, A, B, C, D = it[:10]
+        rus = it[10] if len(it) > 10 else None
+        head = "SS" if rus is None else "SSK %s" % flag_tok(rus)
+        return "%s %s %d %d %d %s %s" % (head, names_tok(mt), n, p, m, dt, " ".join(A + B + C + D))
     if k == "TF":
         _, mt, p, m, dt, ents, _dtype = it
         s = "TF %s %d %d %s" % (names_tok(mt), p, m, dt)
@@ -83,10 +94,17 @@ def item_tok(it):
         _, mt, dt, zs, ps, kk = it
         return "ZPK %s %s %d %s %d %s %s" % (names_tok(mt), dt, len(zs), " ".join(zs),
                                               len(ps), " ".join(ps), kk)
+    if k == "ss" and len(it) > 3 and it[3] is not None:
+        return "ssk %s %s" % (flag_tok(it[3]), kw_tok(it[1]))
     if k in ("tf", "ss2tf", "ss"):
         return "%s %s" % (k, kw_tok(it[1]))
-    if k in ("tfdata", "ssdata"):
+    if k == "tfdata":
+        # ss2tf(A, B, C, D, dt) calls the StateSpace constructor before converting
+        return "ss2tf4" if len(it) > 1 and it[1] == "ss2tf4" else "tfdata"
+    if k == "ssdata":
         return k
+    if k == "cfg":
+        return "cfg " + it[1]
     if k == "op":
         return "op " + it[1]
     if k == "frd":
@@ -265,9 +283,12 @@ def leaf_kwargs(mt, p, m):
 def build_leaf(it):
     k = it[0]
     if k == "SS":
-        _, mt, n, p, m, dt, A, B, C, D = it
+        _, mt, n, p, m, dt, A, B, C, D = it[:10]
         f = lambda v, r, c: np.array([float(Fraction(x)) for x in v], dtype=float).reshape(r, c)
-        return ct.ss(f(A, n, n), f(B, n, m), f(C, p, n), f(D, p, m), dt_value(dt), **leaf_kwargs(mt, p, m))
+        kw = leaf_kwargs(mt, p, m)
+        if len(it) > 10 and it[10] is not None:
+            kw["remove_useless_states"] = bool(it[10])
+        return ct.ss(f(A, n, n), f(B, n, m), f(C, p, n), f(D, p, m), dt_value(dt), **kw)
     if k == "TF":
         _, mt, p, m, dt, ents, dtype = it
 
@@ -289,12 +310,40 @@ def build_leaf(it):
     raise ValueError(k)
 
 
+def apply_cfg(what):
+    """a configuration event of the session (control/config.py)"""
+    import warnings
+    if what == "on":
+        ct.set_defaults("statesp", remove_useless_states=True)
+    elif what == "off":
+        ct.set_defaults("statesp", remove_useless_states=False)
+    elif what == "legacy":
+        with warnings.catch_warnings():
+            warnings.simplefilter("ignore")
+            ct.use_legacy_defaults("0.8.4")
+    elif what == "reset":
+        ct.reset_defaults()
+    else:
+        raise ValueError(what)
+
+
 def run_prog(prog):
+    if not any(it[0] == "cfg" for it in prog):
+        return run_prog0(prog)
+    try:
+        return run_prog0(prog)
+    finally:
+        ct.reset_defaults()         # the session ends here: the next case starts from the defaults
+
+
+def run_prog0(prog):
     st = []
     for it in prog:
         k = it[0]
         if k in ("SS", "TF", "ZPK"):
             st.append(build_leaf(it))
+        elif k == "cfg":
+            apply_cfg(it[1])
         elif k == "tf":
             x = st.pop()
             st.append(x.to_tf(**kwargs_of(it[1])) if it[2] == "to_tf" else ct.tf(x, **kwargs_of(it[1])))
@@ -304,6 +353,8 @@ def run_prog(prog):
         elif k == "ss":
             x = st.pop()
             kw = kwargs_of(it[1])
+            if len(it) > 3 and it[3] is not None:
+                kw["remove_useless_states"] = bool(it[3])
             if it[2] == "to_ss":
                 st.append(x.to_ss(**kw))
             elif it[2] == "tf2ss":
@@ -419,13 +470,16 @@ def frd_build_lti(l):
 
 class C03(Family):
     prop = "C03"
-    extra_modules = ["CtrlVerif.Props.C03FL"]     # Faddeev-LeVerrier correct as an algorithm (no certificate hypothesis)
+    extra_modules = ["CtrlVerif.Props.C03FL",     # Faddeev-LeVerrier correct as an algorithm (no certificate hypothesis)
+                     "CtrlVerif.Props.C03Rus"]    # remove_useless_states / configuration history preserve the map
     externals = ["scipy.signal.tf2ss (exact counterpart in the model: normalize + controller canonical form)",
                  "scipy.signal.ss2tf / numpy.poly of eigenvalues (model: certified Faddeev-LeVerrier; "
                  "values compared at rational points within a conditioning-scaled tolerance)",
                  "scipy.signal.zpk2tf / numpy.poly (exact counterpart in the model)",
                  "numpy.exp(1j*omega*dt) (values supplied to the model)",
-                 "numpy.linalg.solve inside StateSpace.horner (frd(sys, omega); model: det^-1 * adjugate)"]
+                 "numpy.linalg.solve inside StateSpace.horner (frd(sys, omega); model: det^-1 * adjugate)",
+                 "numpy.any / where / intersect1d / union1d / delete inside _remove_useless_states (model: exact "
+                 "zero tests on rows and columns, restriction to the kept states)"]
     assumptions = [
         "Slycot is absent (MIMO tf -> ss raises ControlMIMONotImplemented; ss -> tf goes through "
         "scipy.signal.ss2tf)",
@@ -437,7 +491,13 @@ class C03(Family):
         "with compatible timebases); the timebase of FRD (op) LTI results is not compared (FRD "
         "operators drop dt: C05)",
         "systems whose transfer matrix is identically zero although B and C are not (so that the "
-        "static/dynamic branch of a later MIMO tf -> ss would depend on rounding) are not generated"]
+        "static/dynamic branch of a later MIMO tf -> ss would depend on rounding) are not generated",
+        "remove_useless_states: the zero tests of the code act on floats, those of the model on the exact "
+        "values; they coincide on integer leaves, on SciPy's controller form (zero iff the coefficient is "
+        "zero) and on block operators of such data; where they could differ (after an eigenvalue-based "
+        "ss -> tf) only the number of states differs, which is not compared (values are)",
+        "use_legacy_defaults('0.8.4') is modelled by its effect on statesp.remove_useless_states only; the "
+        "generated sessions pass every timebase explicitly, so control.default_dt does not matter"]
     rule = ("postfix programs: a leaf (StateSpace 0..4 states, shapes {1,2,3}^2, integer matrices -3..3; "
             "TransferFunction SISO degree 0..3 proper / biproper / non-proper, MIMO static / dynamic / "
             "non-proper in every position of the nested length comparison; zpk with rational zeros and "
@@ -446,7 +506,11 @@ class C03(Family):
             "name/inputs/outputs) of length <= 4 (quick) / <= 8 (thorough), optionally ended by "
             "frd(sys, omega) on an unsorted grid or by a mixed-type + - * with a second such object; plus "
             "the full (class x class x op) table over {ss, tf, frd} with SISO, MIMO, static and "
-            "non-proper operands.  A case is non-trivial when it converts a system with states / "
+            "non-proper operands; plus sessions around structured systems (integrator chains, nilpotent / "
+            "triangular A, zero rows and columns of A, B, C in every pairing, transfer functions a0 s^k q(s) with "
+            "sparse numerators) with the keyword remove_useless_states on ss(A,B,C,D) / ss(sys) / to_ss / tf2ss "
+            "and the configuration events set_defaults('statesp', remove_useless_states=...) / "
+            "use_legacy_defaults / reset_defaults at any point of the session.  A case is non-trivial when it converts a system with states / "
             "non-constant entries at least once; distinct = distinct canonical serialisation")
 
     # ---- generation ------------------------------------------------------------
@@ -707,7 +771,158 @@ class C03(Family):
                 out.append(self.special(rng))
             else:
                 out.append({"prog": self.gen_prog(rng, maxlen)})
+        # structured (sparse) systems, the option remove_useless_states and the configuration history
+        for i in range(260 if tier == "quick" else 9000):
+            out.append({"prog": self.gen_structured(rng, maxlen)})
         return out
+
+    # ---- structured systems / remove_useless_states ----------------------------------
+    def leaf_ss_sparse(self, rng, shape, dt, n=None):
+        """a state-space leaf with structure: zero rows / columns in A, B, C in every pairing
+        (states nothing drives, states that drive nothing, states fed only by the input, states
+        read only by the output), integrator chains, decoupled blocks"""
+        p, m = shape
+        if n is None:
+            n = rng.choice([1, 2, 2, 3, 3, 4])
+        for _ in range(60):
+            dens = rng.choice([0.3, 0.5, 0.7])
+            ent = lambda: rng.choice([-3, -2, -1, 1, 2, 3]) if rng.random() < dens else 0
+            A = [[ent() for _ in range(n)] for _ in range(n)]
+            B = [[ent() for _ in range(m)] for _ in range(n)]
+            C = [[ent() for _ in range(n)] for _ in range(p)]
+            style = rng.random()
+            if style < 0.25:        # integrator chain (the controller form of b(s)/s^n), possibly reversed
+                A = [[(1 if i == j + 1 else 0) for j in range(n)] for i in range(n)]
+                if rng.random() < 0.3:
+                    A = [list(r) for r in zip(*A)]
+                if rng.random() < 0.5:
+                    k = rng.randrange(n)
+                    B = [[(rng.choice([1, 2, -1]) if i == k else 0) for _ in range(m)] for i in range(n)]
+            elif style < 0.4:       # strictly triangular (nilpotent)
+                up = rng.random() < 0.5
+                A = [[(A[i][j] if ((j > i) if up else (j < i)) else 0) for j in range(n)] for i in range(n)]
+            # zero out rows / columns of randomly chosen states
+            for k in range(n):
+                r = rng.random()
+                if r < 0.5:
+                    continue
+                what = rng.choice(["Arow+Brow", "Acol+Ccol", "Arow+Ccol", "Acol+Brow", "Arow", "Acol",
+                                   "Brow", "Ccol", "Arow+Acol", "Arow+Brow+Ccol"])
+                if "Arow" in what:
+                    A[k] = [0] * n
+                if "Acol" in what:
+                    for i in range(n):
+                        A[i][k] = 0
+                if "Brow" in what:
+                    B[k] = [0] * m
+                if "Ccol" in what:
+                    for i in range(p):
+                        C[i][k] = 0
+            D = [0] * (p * m) if rng.random() < 0.5 else [rng.randint(-2, 2) for _ in range(p * m)]
+            Af = [x for r in A for x in r]
+            Bf = [x for r in B for x in r]
+            Cf = [x for r in C for x in r]
+            if not self.degenerate(Af, Bf, Cf, D, n, p, m):
+                break
+        else:                       # a chain b/s^n from the first input to the last output
+            Af = [(1 if i == j + 1 else 0) for i in range(n) for j in range(n)]
+            Bf = [(1 if (i == 0 and j == 0) else 0) for i in range(n) for j in range(m)]
+            Cf = [(1 if (i == p - 1 and j == n - 1) else 0) for i in range(p) for j in range(n)]
+            D = [0] * (p * m)
+        s = lambda v: [tok(Fraction(x)) for x in v]
+        return ["SS", self.meta(rng, p, m), n, p, m, dt, s(Af), s(Bf), s(Cf), s(D)]
+
+    def leaf_tf_sparse(self, rng, dt):
+        """SISO transfer function with poles at the origin: den = a0 s^k q(s), sparse numerator
+        (zero coefficients in every position, common factors s with the denominator)"""
+        k = rng.choice([1, 2, 2, 3])
+        q = rng.choice([[], [], [rng.choice([-2, -1, 1, 3])], [rng.choice([-1, 2]), rng.choice([-3, 1, 2])]])
+        if len(q) + k > 4:
+            q = q[:4 - k]
+        a0 = rng.choice([1, 1, 1, -1, 2, -2, 4])
+        den = [a0] + q + [0] * k
+        dd = len(den) - 1
+        nd = rng.choice([dd, dd, dd - 1, rng.randint(0, dd)])
+        num = [(rng.choice([-3, -2, -1, 1, 2, 3]) if rng.random() < 0.5 else 0) for _ in range(nd + 1)]
+        if num[0] == 0:
+            num[0] = rng.choice([-2, -1, 1, 2, 3])
+        s = lambda v: [tok(Fraction(x)) for x in v]
+        dtype = rng.choice(["int", "float", "float", "nested"])
+        return ["TF", self.meta(rng, 1, 1), 1, 1, dt, [[s(num), s(den)]], dtype]
+
+    def leaf_structured(self, rng, shape, dt):
+        if shape == (1, 1) and rng.random() < 0.45:
+            return self.leaf_tf_sparse(rng, dt)
+        if rng.random() < 0.12:     # an ordinary leaf next to the option
+            return self.leaf(rng, shape, dt, maxn=3)
+        return self.leaf_ss_sparse(rng, shape, dt)
+
+    def gen_structured(self, rng, maxlen):
+        """a session around structured systems: conversions, the keyword remove_useless_states on
+        ss(...) calls, configuration events (set_defaults / use_legacy_defaults / reset_defaults)
+        at any point, optionally a final frd(sys, omega) or a mixed-type operator"""
+        dt = rng.choice(DTS)
+        shape = (1, 1) if rng.random() < 0.6 else self.rshape(rng)
+        p, m = shape
+        mode = rng.choice(["kw", "kw", "cfg", "cfg", "cfg", "both", "none"])
+        lf = self.leaf_structured(rng, shape, dt)
+        chain = self.chain(rng, shape, min(maxlen, 4), lf)
+        # make sure at least one StateSpace constructor call follows the leaf
+        if not any(st[0] in ("ss", "ssdata") or st == ["tfdata", "ss2tf4"] for st in chain):
+            cur_tf = (lf[0] != "SS") if not chain else chain[-1][0] in ("tf", "ss2tf", "tfdata")
+            dyn_mimo = shape != (1, 1) and cur_tf
+            if not dyn_mimo:
+                chain.append(["ss", self.kw(rng, p, m), rng.choice(["ss", "to_ss", "tf2ss"])])
+                if rng.random() < 0.6:
+                    chain.append(rng.choice([["tf", [None, None, None], "tf"], ["tfdata"],
+                                             ["ss2tf", [None, None, None]], ["tfdata", "ss2tf4"]]))
+        prog = [lf] + chain
+        tail = rng.random()
+        if tail < 0.3:
+            op = rng.choice(["add", "sub", "mul"])
+            q = rng.random()
+            first = rng.random() < 0.6
+            if op == "mul":
+                shape2 = ((m, rng.choice([1, 2])) if first else (rng.choice([1, 2]), p)) if q < 0.6 else (1, 1)
+            else:
+                shape2 = shape if q < 0.6 else (1, 1)
+            lf2 = self.leaf_structured(rng, shape2, dt)
+            right = [lf2] + self.chain(rng, shape2, 1, lf2)
+            prog = (prog + right) if first else (right + prog)
+            prog = prog + [["op", op]]
+        elif tail < 0.4:
+            prog = prog + [["frd", self.grid(rng), self.kw(rng, p, m)]]
+        if mode in ("kw", "both"):
+            hit = False
+            for i, it in enumerate(prog):
+                if it[0] == "ss" and rng.random() < 0.8:
+                    prog[i] = it[:3] + [rng.random() < 0.85]
+                    hit = True
+                elif it[0] == "SS" and rng.random() < 0.5:
+                    prog[i] = it[:10] + [rng.random() < 0.85]
+                    hit = True
+            if not hit:
+                for i, it in enumerate(prog):
+                    if it[0] in ("ss", "SS"):
+                        prog[i] = (it[:3] if it[0] == "ss" else it[:10]) + [True]
+                        break
+        if mode in ("cfg", "both"):
+            ev = rng.choice(["on", "on", "on", "legacy"])
+            # positions where a statement of the session can stand: before any item
+            # (the final frd / operator stays the last statement)
+            pos = 0 if rng.random() < 0.5 else rng.randrange(len(prog))
+            prog.insert(pos, ["cfg", ev])
+            if rng.random() < 0.3:      # ... and switched off again later
+                pos2 = rng.randint(pos + 1, len(prog) - 1)
+                prog.insert(pos2, ["cfg", rng.choice(["off", "reset"])])
+                if rng.random() < 0.3 and pos2 + 1 <= len(prog) - 1:
+                    prog.insert(rng.randint(pos2 + 1, len(prog) - 1), ["cfg", "on"])
+            if mode == "cfg" and rng.random() < 0.2:    # keyword False overrides the configured default
+                for i, it in enumerate(prog):
+                    if it[0] == "ss" and len(it) == 3:
+                        prog[i] = it + [False]
+                        break
+        return prog
 
     def special(self, rng):
         """streams that need something specific"""
@@ -771,6 +986,21 @@ class C03(Family):
             # tf + ss keeps the left class
             {"prog": [["TF", g, 1, 1, "C", [[["1"], ["1", "2"]]], "float"],
                       ["SS", g, 1, 1, 1, "C", ["-1"], ["1"], ["1"], ["0"]], ["op", "add"]]},
+            # remove_useless_states=True on the conversion of a double integrator (zero row of A whose
+            # state the output does not read: nothing may be dropped), and back
+            {"prog": [["TF", g, 1, 1, "C", [[["1"], ["1", "0", "0"]]], "float"], ["ss", nk, "ss", True],
+                      ["tf", nk, "tf"]]},
+            # the same through the configuration: set_defaults before the session, 1/z^3, tf2ss(num, den, dt)
+            {"prog": [["cfg", "on"], ["TF", g, 1, 1, DT01, [[["1", "1"], ["1", "0", "0", "0"]]], "float"],
+                      ["ssdata", "tf2ss3"]]},
+            # use_legacy_defaults, mixed ss * tf with a triple integrator
+            {"prog": [["cfg", "legacy"], ["SS", g, 1, 1, 1, "C", ["-1"], ["1"], ["1"], ["0"]],
+                      ["TF", g, 1, 1, "C", [[["2", "0", "1"], ["1", "0", "0", "0"]]], "float"], ["op", "mul"]]},
+            # states that really are useless (undriven state 1; state 2 drives nothing) are dropped, the
+            # map stays; switched off again before the copy
+            {"prog": [["SS", g, 3, 1, 1, "C", ["-1", "2", "0", "0", "0", "0", "1", "0", "0"], ["1", "0", "3"],
+                       ["1", "1", "0"], ["2"], True], ["cfg", "on"], ["ss", nk, "ss"], ["cfg", "reset"],
+                      ["ss", nk, "to_ss"], ["tfdata", "ss2tf4"]]},
         ]
 
     # ---- execution ----------------------------------------------------------------
@@ -849,12 +1079,27 @@ class C03(Family):
 
     def features(self, case, kind, impl, extra=None):
         feat = {"kind": kind, "last": self.last_item(case)}
+        if self.uses_rus(case):
+            feat["rus"] = self.uses_rus(case)
         if "err" in impl:
             feat["exc"] = impl["exc"].split(":")[0]
             feat["msg"] = re.sub(r"[0-9]+", "#", impl["exc"].split(":", 1)[1].strip())[:60]
         if extra:
             feat.update(extra)
         return feat
+
+    @staticmethod
+    def uses_rus(case):
+        """how remove_useless_states is switched on in the case: '' | 'kw' | 'cfg' | 'kw+cfg'"""
+        if "frdop" in case:
+            return ""
+        how = []
+        if any((it[0] == "SS" and len(it) > 10 and it[10]) or (it[0] == "ss" and len(it) > 3 and it[3])
+               for it in case["prog"]):
+            how.append("kw")
+        if any(it[0] == "cfg" and it[1] in ("on", "legacy") for it in case["prog"]):
+            how.append("cfg")
+        return "+".join(how)
 
     @staticmethod
     def last_item(case):
@@ -864,7 +1109,7 @@ class C03(Family):
             c = case["frdop"]
             l = "ss" if c["lti"][0] == "LS" else "tf"
             return ("frd %s %s" % (c["op"], l)) if c["order"] == "FL" else ("%s %s frd" % (l, c["op"]))
-        it = case["prog"][-1]
+        it = [x for x in case["prog"] if x[0] != "cfg"][-1]
         if it[0] == "op":
             cl = [x[0] for x in case["prog"] if x[0] in ("SS", "TF", "ZPK")]
             return "%s.. %s %s.." % (cl[0], it[1], cl[-1])
@@ -1019,7 +1264,12 @@ class C03(Family):
             st["table"] = self.summary(case)
             return st
         prog = case["prog"]
-        st["leaf"] = prog[0][0]
+        st["leaf"] = [it for it in prog if it[0] != "cfg"][0][0]
+        if self.uses_rus(case):
+            st["remove_useless_states"] = self.uses_rus(case)
+            for it in prog:
+                if it[0] == "cfg":
+                    st["cfg:" + it[1]] = 1
         st["dt"] = sorted(prog_dts(prog))[0][:1]
         nsteps = sum(1 for it in prog if it[0] in STEPS)
         st["chain"] = min(nsteps, 9)
@@ -1055,10 +1305,16 @@ class C03(Family):
         if "frdop" in case:
             return
         prog = case["prog"]
-        # drop one conversion step
+        # drop one conversion step / configuration event
         for i, it in enumerate(prog):
-            if it[0] in STEPS or it[0] == "frd":
+            if it[0] in STEPS or it[0] in ("frd", "cfg"):
                 yield {"prog": prog[:i] + prog[i + 1:]}
+        # drop a remove_useless_states keyword
+        for i, it in enumerate(prog):
+            if it[0] == "ss" and len(it) > 3 and it[3] is not None:
+                yield {"prog": prog[:i] + [it[:3]] + prog[i + 1:]}
+            if it[0] == "SS" and len(it) > 10 and it[10] is not None:
+                yield {"prog": prog[:i] + [it[:10]] + prog[i + 1:]}
         # drop keyword overrides
         for i, it in enumerate(prog):
             if it[0] in ("tf", "ss2tf", "ss") and it[1] != [None, None, None]:
@@ -1073,16 +1329,17 @@ class C03(Family):
         # smaller leaves
         for i, it in enumerate(prog):
             if it[0] == "SS":
-                _, mt, n, p, m, dt, A, B, C, D = it
+                _, mt, n, p, m, dt, A, B, C, D = it[:10]
+                ext = it[10:]
                 if n > 1:
                     n2 = n - 1
                     A2 = [A[r * n + c] for r in range(n2) for c in range(n2)]
                     C2 = [C[r * n + c] for r in range(p) for c in range(n2)]
-                    yield {"prog": prog[:i] + [["SS", mt, n2, p, m, dt, A2, B[:n2 * m], C2, D]] + prog[i + 1:]}
+                    yield {"prog": prog[:i] + [["SS", mt, n2, p, m, dt, A2, B[:n2 * m], C2, D] + ext] + prog[i + 1:]}
                 if mt != [GEN, dlabels("u", m), dlabels("y", p)]:
                     yield {"prog": prog[:i] + [["SS", [GEN, dlabels("u", m), dlabels("y", p)]] + it[2:]] + prog[i + 1:]}
                 if dt != "C":
-                    yield {"prog": prog[:i] + [["SS", mt, n, p, m, "C", A, B, C, D]] + prog[i + 1:]}
+                    yield {"prog": prog[:i] + [["SS", mt, n, p, m, "C", A, B, C, D] + ext] + prog[i + 1:]}
             if it[0] == "TF":
                 _, mt, p, m, dt, ents, dtype = it
                 if mt != [GEN, dlabels("u", m), dlabels("y", p)]:
@@ -1096,6 +1353,9 @@ class C03(Family):
             out.append({"prog": self.gen_prog(rng, 3)})
         for _ in range(100):
             out.append(self.special(rng))
+        if self.uses_rus(case):
+            for _ in range(150):
+                out.append({"prog": self.gen_structured(rng, 3)})
         return out
 
 
